@@ -11,6 +11,40 @@ LITS_QUICK = ("0", "2", "2.5")
 LITS_THOROUGH = ("0", "1", "2", "2.5", "0.0")
 
 
+def product_of_partial_sums(prog):
+    """A product whose two factors are sums that each have a term with and a term without some
+    contracted index: the shape in which a contraction must be distributed over the product."""
+    from .refmodel import term_indexes, terms
+
+    tgt = set(prog[1])
+
+    def walk(t):
+        if t[0] in ("t", "n"):
+            return False
+        if t[0] == "*":
+            lt, rt = terms(t[1]), terms(t[2])
+            idx = {i for _, f in lt + rt for i in term_indexes(f)} - tgt
+            for k in idx:
+                lh = [k in term_indexes(f) for _, f in lt]
+                rh = [k in term_indexes(f) for _, f in rt]
+                if any(lh) and not all(lh) and any(rh) and not all(rh):
+                    return True
+        return walk(t[1]) or walk(t[2])
+
+    return walk(prog[2])
+
+
+_POPS = None
+
+
+def products_of_partial_sums():
+    global _POPS
+    if _POPS is None:
+        _POPS = [p for p in space.enumerate_programs(4, 3, min_leaves=4, repeats=False, ops="+-*")
+                 if product_of_partial_sums(p)]
+    return _POPS
+
+
 def dedupe(progs):
     seen = set()
     out = []
@@ -35,6 +69,8 @@ def programs(tier: str, flavour: str = "full"):
             progs += P(3, 2, literals=("2",), min_leaves=3, repeats=False, ops="+*")
             # order-3 copies / transposes: the only programs of the quick tier with 3-level buckets
             progs += P(1, 6, min_total_order=6)
+            # 4-leaf products of two sums, each with a term that lacks a contracted index (128 programs)
+            progs += products_of_partial_sums()
     else:
         if flavour == "light":
             progs = P(2, 4) + P(3, 3, min_leaves=3, repeats=False) + P(2, 5, min_total_order=5, repeats=False, ops="+*")
@@ -57,7 +93,7 @@ def programs(tier: str, flavour: str = "full"):
 def describe(tier, flavour):
     return {
         "quick/full": "L<=2,S<=4 all shapes incl. repeated tensors; L=3,S<=3; literals {0,2,2.5} with L<=2,S<=3 and "
-                      "{2} with L=3,S<=2; all order-3 copies/transposes (L=1,S=6); int32-overflowing literals",
+                      "{2} with L=3,S<=2; all order-3 copies/transposes (L=1,S=6); the 128 4-leaf products of partial sums (b() + c(i)) * (d() + e(i)); int32-overflowing literals",
         "quick/light": "L<=2,S<=3; L=2,S=4 (+,*; no repeats); L=3,S<=2 (+,*); literal 2 with L=2,S<=2",
         "thorough/full": "L<=2,S<=5; L=3,S<=4; L=2,S=6 (+,*); L=4,S<=3 (+,*); literals {0,1,2,2.5,0.0} L<=2,S<=4; "
                          "{2,2.5} L=3,S<=3",
